@@ -11,6 +11,8 @@
      Interpreter::run_program  (the loop; a debug event stores
        RunProgram(d) as last state and returns it)                          (executors/main.rs) -> run_loop / run_program
      Interpreter::resume                                                    (executors/debug.rs) -> resume
+     Debugger::clear_last_state, called by init_inner for every new
+       transaction (repair 22c6df9 of finding F9)                           (state/debugger.rs, initialization.rs) -> clear_last_state, transact
      "resume after every debug event until completion" (the client loop of
        the property text)                                                   -> drive
 
@@ -115,6 +117,10 @@ Section Debug.
   Definition take_last_state (d : debugger) : debugger :=
     {| is_active := is_active d; single_stepping := single_stepping d; breakpoints := breakpoints d; last_state := None |}.
 
+  (* Debugger::clear_last_state (does not activate the debugger) *)
+  Definition clear_last_state (d : debugger) : debugger :=
+    {| is_active := is_active d; single_stepping := single_stepping d; breakpoints := breakpoints d; last_state := None |}.
+
   (* Debugger::eval_state *)
   Definition eval_state (d : debugger) (contract : option C) (pc : N) : debugger * debug_eval :=
     let contract := match contract with Some c => c | None => C_default end in
@@ -170,6 +176,12 @@ Section Debug.
   Definition run_program (n : nat) (d : debugger) (s : St) : debugger * outcome :=
     if script_empty then (d, OFinal (empty_result s)) else run_loop n d s.
 
+  (* Interpreter::transact as far as the debugger goes: init_script -> init_inner forgets the last
+     suspended state of any earlier (possibly abandoned) session, then run -> run_program; s is the
+     freshly initialised VM state *)
+  Definition transact (n : nat) (d : debugger) (s : St) : debugger * outcome :=
+    run_program n (clear_last_state d) s.
+
   (* Interpreter::resume *)
   Inductive resume_result :=
   | RDebugStateNotInitialized
@@ -208,6 +220,10 @@ Section Debug.
         end
     end.
   Definition drive (k n : nat) (d : debugger) (s : St) : list event * option Res :=
+    let '(d', o) := transact n d s in drive_from k n d' o.
+  (* the same client on the code BEFORE repair 22c6df9, where a new transaction inherited the
+     debugger's last state (kept only for the historical witness of finding F9) *)
+  Definition drive_before_22c6df9 (k n : nat) (d : debugger) (s : St) : list event * option Res :=
     let '(d', o) := run_program n d s in drive_from k n d' o.
 
   (* ------------------------------------------------------------------ the run without a debugger *)
